@@ -28,7 +28,8 @@ ASSUMPTIONS = ['ground truth = generator; configured start values outside the (o
                'the write-before-first-poll clause is observed with real poll threads (logical order of recorded events, no wall-clock bound)',
                'generated classes are made importable through a synthetic module "frappy_verifgen"']
 REQUIRED = ['valid_configs', 'erroneous_configs', 'start_values_checked', 'overrides_checked', 'errors_injected',
-            'rejections_checked', 'merged_configs', 'write_order_nodes', 'configured_writes_checked']
+            'rejections_checked', 'merged_configs', 'write_order_nodes', 'configured_writes_checked',
+            'array_element_limit_probes', 'write_order_nodes_with_failing_write']
 
 N = {'quick': 40, 'thorough': 2000}
 GENMOD = 'frappy_verifgen'
@@ -77,6 +78,15 @@ class World:
         for i in range(nmod):
             ms = modgen.gen_module(rng, f'mod{i}', base=rng.choice(['Module', 'Module', 'Readable', 'Writable']))
             ms['export'] = True
+            if rng.random() < 0.4:
+                # a curve-like parameter: array of numbers with finite element limits (configurable on the array parameter)
+                mt = rng.choice(['double', 'int'])
+                lo, hi = rng.choice([(-10, 10), (0, 100), (-1000, 1000)])
+                aspec = {'type': 'array', 'minlen': rng.choice([0, 1, 2]), 'maxlen': rng.choice([2, 5]),
+                         'members': {'type': mt, 'min': float(lo) if mt == 'double' else lo, 'max': float(hi) if mt == 'double' else hi}}
+                ms['params'].append({'name': 'curve', 'spec': aspec, 'readonly': False, 'constant': None, 'export': True,
+                                     'default': [aspec['members']['min'] + 2] * aspec['maxlen'], 'has_read': False,
+                                     'has_write': rng.random() < 0.5, 'write_returns': 'value', 'check': None, 'limits': None})
             for p in ms['params']:
                 p['limits'] = None
                 p['check'] = None
@@ -134,6 +144,14 @@ class World:
                     if t == 'array' and rng.random() < 0.3:
                         props['maxlen'] = spec['maxlen'] + 2
                         di['maxlen'] = props['maxlen']
+                    if t == 'array' and spec['members']['type'] in ('double', 'int') and rng.random() < 0.5 \
+                            and 'value' not in props and 'default' not in props:
+                        # element limits configured on the array parameter (forwarded to the member datatype)
+                        m = spec['members']
+                        lo, hi = m.get('min'), m.get('max')
+                        if lo is not None and hi is not None and hi - lo > 4 and abs(lo) < 1e15 and abs(hi) < 1e15:
+                            props['min'], props['max'] = lo + 1, hi - 1
+                            di['members'] = dict(m, min=lo + 1, max=hi - 1)
                     if di != spec:
                         truth['datainfo'][p['name']] = di
                     if rng.random() < 0.2:
@@ -395,6 +413,23 @@ class World:
                         r.violation('C10/override-not-applied/readonly-false-but-not-writable',
                                     f'{ms["name"]}.{n} is described as writable (configured readonly=False) but a valid change fails with {st[1]}', case)
                         continue      # known mechanism: go on with the other clauses
+                # later range checks use the overridden element limits of an array
+                if n in truth['datainfo'] and not ro and spec['type'] == 'array' and spec['members'] != p['spec']['members']:
+                    old, new = p['spec']['members'], spec['members']
+                    length = max(spec.get('minlen', 0), 1)
+                    if length <= spec['maxlen']:
+                        for elem in (old['min'], old['max'], new['min'], new['max']):
+                            payload = [new['min']] * (length - 1) + [elem]
+                            cl = refdt.classify_wire(spec, payload)
+                            if cl == 'either':
+                                continue
+                            st = self.ask(node, conn, ('change', f'{ms["name"]}:{wn}', payload))
+                            r.count('overrides_checked')
+                            r.count('array_element_limit_probes')
+                            if (st[0] == 'ok') != (cl == 'accept'):
+                                r.violation('C10/override-not-applied/range-check-uses-old-limits/array-elements',
+                                            f'change {ms["name"]}:{wn} {payload} -> {st[0]} with configured element limits [{new["min"]}, {new["max"]}]', case)
+                                return
                 # later range checks use the overridden limits
                 if n in truth['datainfo'] and not ro and spec['type'] in ('double', 'int') and \
                         spec.get('min') != p['spec'].get('min') and 'min' in p['spec'] and 'max' in p['spec']:
@@ -479,6 +514,15 @@ class World:
         files, _ = self.write_files(mods, cfgs, 1, 'run')
         case = {'sub': 'write-order', 'files': [open(f).read() for f in files]}
         del self.events[:]
+        # a transient driver fault in one start-up write: every configured value is still handed to its method once
+        if self.rng.random() < 0.5:
+            from frappy.errors import CommunicationFailedError, HardwareError
+            cands = [(ms['name'], n) for ms in mods for n in cfgs[ms['name']]['truth']['writes']]
+            mn_, n_ = self.rng.choice(cands)
+            exc = self.rng.choice([CommunicationFailedError, HardwareError, ValueError])('injected start-up write fault')
+            self.hw[('__fail__', mn_, n_, 'write')] = exc
+            case['failing_write'] = [mn_, n_, type(exc).__name__]
+            r.count('write_order_nodes_with_failing_write')
         node, code, exc, stderr, log = self.build(files, testonly=False)
         if code is not None or exc is not None:
             r.violation('C10/valid-config-rejected', f'(non-test mode) exit={code} exc={exc!r} {stderr[:200]}', case)
@@ -495,7 +539,7 @@ class World:
                     idx = [i for i, e in enumerate(mine) if e[0] == 'write' and e[2] == n]
                     p = next(p for p in ms['params'] if p['name'] == n)
                     if len(idx) != 1:
-                        r.violation(f'C10/configured-write-count/{len(idx)}', f'{ms["name"]}.{n}: write method called {len(idx)}x', case)
+                        r.violation(f'C10/configured-write-count/{len(idx)}' + ('/with-failing-write' if 'failing_write' in case else ''), f'{ms["name"]}.{n}: write method called {len(idx)}x (failing write: {case.get("failing_write")})', case)
                         return
                     from vlib import dtbuild
                     got = json.loads(json.dumps(dtbuild.build(p['spec']).export_value(mine[idx[0]][3])))
